@@ -151,6 +151,10 @@ def g_set_pred(rng, t0, opts):
         else:
             occs.append(Occupancy(t, sh))
             t += 1 + (1 if opts.get("holes") and rng.random() < 0.3 else 0)
+    if opts.get("unsorted") and len(occs) > 1:
+        # nothing requires the occupancies to be stored chronologically (the lookup is by time step)
+        k = rng.randrange(1, len(occs))
+        occs = occs[k:] + occs[:k] if rng.random() < 0.5 else occs[::-1]
     return SetBasedPrediction(t0 + 1, occs)
 
 
@@ -270,7 +274,7 @@ def obs_opts(rng):
     o = {"shape": rng.choice(["rect", "rect", "circ", "poly", "offrect", "offpoly", "offcirc", "group"]),
          "t0": rng.choice([0, 0, 2, 5]), "n": rng.randint(1, 5), "gap": rng.choice([0, 0, 0, 2]),
          "cls": rng.choice(["KS", "PM", "ST", "Custom", "custom_pm"]), "itv": rng.random() < 0.5,
-         "holes": rng.random() < 0.3, "nopred": rng.random() < 0.1}
+         "holes": rng.random() < 0.3, "nopred": rng.random() < 0.1, "unsorted": rng.random() < 0.3}
     if unc:
         o["unc_pos"] = rng.choice([None, "rect", "circ", "poly", "tri"])
         o["unc_ori"] = rng.random() < 0.6 or o["unc_pos"] is None
@@ -570,6 +574,10 @@ def time_range(ob):
     if p is not None:
         f = p.final_time_step
         tf = max(tf, int(f.end) if isinstance(f, Interval) else int(f))
+        if isinstance(p, SetBasedPrediction):   # stored in any order: the last element need not be the latest
+            for oc in p.occupancy_set:
+                f = oc.time_step
+                tf = max(tf, int(f.end) if isinstance(f, Interval) else int(f))
     return t0, tf
 
 
